@@ -791,7 +791,7 @@ deriving Repr, Inhabited
 structure St where
   env : List Value
   heap : Heap
-deriving Repr, Inhabited
+deriving Repr, Inhabited, DecidableEq
 
 /-- an unbound variable evaluates to null -/
 def evalArg (env : List Value) : Arg → Value
